@@ -533,5 +533,11 @@ def run(ctx, rep):
     check_views(F, rep)
     check_common(F, rep)
     check_by_name(F, rep)
+    # by-name lookup reads names through the table section_headers_with_strtab() locates: that this is the table e_shstrndx (or
+    # shdr[0].sh_link) designates, and is withheld only when there is none, is C05's shstrndx rule
+    from ._common import premise
+    premise(ctx, rep, "C09", "the entry iterators behind the typed views yield exactly the whole entries (next only, no overridden provided method)",
+            rules={"iterator", "table", "entry-advance"}, where="src/parse.rs")
+    premise(ctx, rep, "C05", "section_headers_with_strtab locates the section-name string table", rules={"shstrndx"}, where="src/elf_bytes.rs, src/elf_stream.rs")
     rep.trusted_base += ["C03 (typed views are built over section_data's / the designated buffer)", "C19 for the SHT_* / PT_* constants",
                         "the property's quantifier: at most one section of each kind (find_common_data keeps the last, the accessors the first)"]
